@@ -3,6 +3,7 @@ import PystogVerif.Model.Stog
 import PystogVerif.Model.Rebin
 import PystogVerif.Model.Writer
 import PystogVerif.Model.Workflow
+import PystogVerif.Model.Config
 /-! Driver entry points of the hand-written models (Float reading) -/
 
 def flag (x : Float) : Bool := x != 0.0
@@ -54,4 +55,38 @@ def Model.dispatch (name : String) (a : Array Arg) : Except String (List (List F
       let enc : Option (Workflow.Curve Float) → List (List Float) := fun o => match o with
         | some c => [[1.0], c.1, c.2] | Option.none => [[0.0], [], []]
       pure ([st.sq.1, st.sq.2] ++ enc st.gr ++ enc st.ft ++ enc st.sqFt ++ enc st.grFt ++ enc st.grLorch ++ enc st.fqKeen ++ enc st.gkKeen)
+  | "Cfg.domain" => do
+      pure [Config.createDomain (← Arg.getScalar a 0) (← Arg.getScalar a 1) (← Arg.getScalar a 2)]
+  | "Cfg.settings" => do
+      -- PyVal encoded as a vector [tag, value]: 0 none, 1 bool, 2 num, 3 str; absent key = "-"
+      let pv : Nat → Except String (Option (Config.PyVal Float)) := fun i => do
+        match ← Arg.getOVec a i with
+        | Option.none => pure Option.none
+        | some [t, v] => pure (some (if t == 0.0 then Config.PyVal.none else if t == 1.0 then Config.PyVal.bool (v != 0.0)
+                                      else if t == 2.0 then Config.PyVal.num v else Config.PyVal.str))
+        | _ => throw "bad PyVal"
+      let nat? : Nat → Except String (Option Nat) := fun i => do
+        pure ((← Arg.getOScalar a i).map (fun x => x.toUInt64.toNat))
+      let k : Config.Kwargs Float := {
+        nFiles := (← Arg.getScalar a 0).toUInt64.toNat, rsf := ← nat? 1, rmin := ← Arg.getOScalar a 2, rmax := ← Arg.getOScalar a 3,
+        rdelta := ← Arg.getOScalar a 4, rpoints := ← Arg.getOScalar a 5, density := ← pv 6, lowq := ← pv 7, lorch := ← pv 8,
+        hasFF := flag (← Arg.getScalar a 9), cutoff := ← pv 10, bcoh := ← Arg.getOScalar a 11, btot := ← Arg.getOScalar a 12,
+        qmin := ← Arg.getOScalar a 13, qmax := ← Arg.getOScalar a 14, stem := ← nat? 15 }
+      let encPv : Config.PyVal Float → List Float := fun v => match v with
+        | .none => [0.0, 0.0] | .bool b => [1.0, if b then 1.0 else 0.0] | .num x => [2.0, x] | .str => [3.0, 0.0]
+      let oenc : Option Float → List Float := fun o => match o with | some x => [1.0, x] | Option.none => [0.0, 0.0]
+      match Config.settings k with
+      | .error e => pure [[match e with | .valueError => 1.0 | .typeError => 2.0 | .noFiles => 3.0]]
+      | .ok s =>
+        let steps := match Config.cliSteps k with
+          | .ok l => l.map (fun st => match st with
+              | .readAll => 0.0 | .merge => 1.0 | .writeSq => 2.0 | .transform => 3.0 | .writeGr => 4.0 | .filter => 5.0
+              | .lorch => 6.0 | .keenFq => 7.0 | .keenGr => 8.0)
+          | .error _ => [-1.0]
+        let files := match Config.cliSteps k with
+          | .ok l => (l.flatMap Config.filesOf).map (fun n => Float.ofNat n)
+          | .error _ => []
+        pure [[0.0], [Float.ofNat s.rsf, s.rmin, s.rmax, s.rdelta, if s.lowq then 1.0 else 0.0, if s.lorch then 1.0 else 0.0, s.bcoh, s.btot],
+              encPv s.density, encPv s.cutoff, oenc s.qmin, oenc s.qmax, (match s.stem with | some n => [Float.ofNat n] | Option.none => [0.0]),
+              steps, files, Config.createDomain s.rmin s.rmax s.rdelta]
   | _ => throw "unknown-entry"
